@@ -47,6 +47,10 @@ def gen_cases(tier, rng):
     for i in range(m):
         c = tensors.gen_case(rng, "stR-TD", tier)
         c["cls"] = "td-endpoints"
+        if len(cases) % 3 == 2:
+            # classical, real-valued bath correlation functions given by their values
+            for b_ in c["sys"]["bath"]:
+                b_["ftype"] = "Value-defined-real"
         c["cost"] = 6 + c["sys"]["Nt"] / 20.0
         cases.append(c)
     # time-dependent Redfield tensor held as operators vs as a tensor: conversion, then use in other bases than the one of conversion
@@ -287,7 +291,7 @@ def run_case(case, ctx):
             with qr.eigenbasis_of(Bi["hamR"]):
                 TIe = numpy.array(Bi["R"].data)
         sc = max(float(numpy.max(numpy.abs(TI))), 1e-300)
-        det = {"N": case["sys"]["N"], "Nt": case["sys"]["Nt"], "scale": sc}
+        det = {"N": case["sys"]["N"], "Nt": case["sys"]["Nt"], "scale": sc, "bath": case["sys"]["bath"][0]["ftype"]}
         ctx.require("TD[0]==0", TD.ndim == 5 and TD.shape[0] == case["sys"]["Nt"], dict(det, shape=list(TD.shape)))
         ctx.check("TD[0]==0", float(numpy.max(numpy.abs(TD[0]))), 64 * EPS * sc, det)
         ctx.check("TD[-1]==time-independent", float(numpy.max(numpy.abs(TD[-1] - TI))), 1e-9 * sc, det)
